@@ -70,10 +70,21 @@ def build_lineage(lineage):
     """lineage = {'base': [name, how], 'merges': [[lineage, overwrite], ..]}
     Failed merges are part of the lineage (they may leave partial data)."""
     lib = load_library(*lineage['base'])
+    if lineage.get('constructed'):
+        lib = construct_copy(lib)
     for other, overwrite in lineage.get('merges', []):
         olib = build_lineage(other)
         record(lib.Update, olib, overwrite)
     return lib
+
+
+def construct_copy(src):
+    """A library made with the public constructor (scheme + contents, no
+    uncertainty data, all other arguments left to their defaults)."""
+    from pgradd.GroupAdd.Library import GroupLibrary
+    contents = dict((g, dict((n, c.copy()) for n, c in psets.items()))
+                    for g, psets in src.contents.items())
+    return GroupLibrary(src.scheme, contents)
 
 
 def lineage_key(lineage):
